@@ -19,7 +19,7 @@ META = {
     "deciding": ["binomial_evaluations.binary_joint_log_likelihood_ndarray", "brier_evaluations._brier_score_ndarray",
                  "trace:binary test_distribution[j]~simulated[j]", "trace:brier test_distribution[j]~simulated[j]"],
 }
-META["added"] = 'Added: Fortran / transposed arrays for primitives and tests, injected Brier collisions (two numbers in one bin), forecasts re-scaled before the tests, many low-rate active bins (product underflow), shared object histories from gridcases. array-valued scale factors.'
+META["added"] = 'Added: Fortran / transposed arrays for primitives and tests, injected Brier collisions (two numbers in one bin), forecasts re-scaled before the tests, many low-rate active bins (product underflow), shared object histories from gridcases. array-valued scale factors. below-minimum-magnitude event alone in a cell (S-test).'
 MANIFEST = {
     "technique": "runtime post-conditions on the real binary-likelihood / Brier primitives (every call, including those made for simulated catalogs) vs expm1-based oracle; simulator boundary log + offline alignment of test distributions; metamorphic activity-only check",
     "level_text": "Every call of the two score primitives - direct, from the three public tests, and for each simulated catalog - is compared with the definition computed by an independent cancellation-free formula; test distributions are aligned with the recorded simulated catalogs; dependence on activity only is checked by re-scoring min(w,1) and k*w.",
@@ -142,11 +142,23 @@ def ex_e2e(ctx, case, test="BS", num_sim=4, seed=1, layout="C", inject=False, sc
     ctx.current_case = rc
     if test == "BS":
         fn, mod, lam, wobs = be.binary_spatial_test, be, rates.sum(axis=1), w.sum(axis=1)
+        empty_cells = numpy.nonzero((wobs == 0) & (lam > 0))[0]
+        if seed % 3 == 1 and empty_cells.size:
+            # the spatial test grids the catalog in space only: an event BELOW the forecast's lowest magnitude edge, alone in its cell, still
+            # makes that cell active
+            from csep.core.catalogs import CSEPCatalog
+            c_ = int(empty_cells[seed % empty_cells.size])
+            org = reg.origins()[c_]
+            rows = [(r_[0].decode() if isinstance(r_[0], bytes) else r_[0],) + tuple(r_[1:]) for r_ in cat.catalog.tolist()]
+            rows.append(("below-min", 1262304999000, float(org[1] + 0.5 * reg.dh), float(org[0] + 0.5 * reg.dh), 5.0, float(fore.magnitudes[0]) - 0.3))
+            cat = CSEPCatalog(data=rows, region=reg, name="obs")
+            wobs = wobs.copy()
+            wobs[c_] += 1
     elif test == "BCL":
         fn, mod, lam, wobs = be.binary_conditional_likelihood_test, be, rates, w
     else:
         fn, mod, lam, wobs = br.brier_score_test, br, rates, w
-    tags = {"test": test, "has_zero_rate": bool(numpy.any(lam == 0)), "scaled": scale is not None,
+    tags = {"test": test, "has_zero_rate": bool(numpy.any(lam == 0)), "scaled": scale is not None, "event_below_min_mag": bool(test == "BS" and cat.event_count != int(w.sum())),
             "zero_rate_active_bin": bool(numpy.any((numpy.asarray(lam) == 0) & (numpy.asarray(wobs) > 0)))}
     n_active = int((numpy.asarray(wobs) > 0).sum())
     from .c06 import _feasible_binary
